@@ -153,6 +153,8 @@ package lexer
 //@     decreases slen(l.input) - l.position
 //@ end
 
+//@ pred KeptPieces(P seq[string], Q seq[string]) = len(Q) <= len(P) && (forall k int :: {P[k]} {Q[k]} (0 <= k && k < len(Q)) ==> P[k] == Q[k])
+
 //@ func (l *Lexer) readString
 //@   requires ValidUTF8(l.input) && LexInv(l)
 //@   modifies l.ch, l.position, l.readPosition, l.lineNumber, l.prevCharNumber, l.charNumber, l.prevUtf8CharNumber, l.utf8CharNumber
@@ -160,11 +162,21 @@ package lexer
 //@   ensures [C18:progress] old(l.ch) == '"' ==> l.position > old(l.position)
 //@   ensures [C19:endline] old(l.ch) == '"' ==> (old(l.lineNumber) <= result1 && result1 <= l.lineNumber)
 //@   loop 1
+// C09: adjacent literals are joined by one newline; what is already collected is never touched
+//@     invariant [C09:pieces] len(sb.pieces) >= 0
+//@     transition [C09:join] KeptPieces(sb.pieces, prev(sb.pieces)) && len(sb.pieces) >= len(prev(sb.pieces))
+//@        && ((prev(sb.nbytes) > 0 && len(sb.pieces) > len(prev(sb.pieces))) ==> sb.pieces[len(prev(sb.pieces))] == "\n")
+//@        && (prev(sb.nbytes) > 0 ==> len(sb.pieces) > len(prev(sb.pieces)))
 //@     invariant LexInv(l) && Advanced(l, old(l.position), old(l.input), old(l.lineNumber)) && ValidUTF8(l.input)
 //@     invariant (old(l.ch) == '"' && l.position == old(l.position)) ==> l.ch == '"'
 //@     invariant l.position > old(l.position) ==> (old(l.lineNumber) <= endLine && endLine <= l.lineNumber)
 //@     decreases slen(l.input) - l.position
 //@   loop 2
+// C09: a line break inside a literal (with the indentation that follows it) becomes exactly one space; every other
+// character is copied, one piece each
+//@     invariant [C09:kept] KeptPieces(sb.pieces, pre(sb.pieces))
+//@     transition [C09:newline-space] KeptPieces(sb.pieces, prev(sb.pieces))
+//@        && (lastresult(skipNewlineWhitespace, 0) ? (len(sb.pieces) == len(prev(sb.pieces)) + 2 && sb.pieces[len(prev(sb.pieces))] == " ") : len(sb.pieces) == len(prev(sb.pieces)) + 1)
 //@     invariant LexInv(l) && Advanced(l, old(l.position), old(l.input), old(l.lineNumber)) && ValidUTF8(l.input)
 //@     invariant l.position > outer(l.position)
 //@     decreases slen(l.input) - l.position
